@@ -90,6 +90,12 @@ def judge(case):
             if se.count("'sub'") != sg.count("'sub'"):
                 kind = "meaning-differs:subcircuit-annotation"
             fails.append((kind, {"diff": d}))
+        else:
+            # call-by-substitution hands the argument on as it was written: 2.0 stays the float 2.0 where it reaches a gate
+            STATS["kind-compared"] = 1
+            nd = M.number_kind_diff(expected, got)
+            if nd:
+                fails.append(("argument-number-kind-changed", {"diff": nd}))
         hd = header_diff(kc, kr, what=("lets", "regs", "usepulses"))
         if hd:
             fails.append(("header-changed:" + "+".join(h[0] for h in hd), {"diff": hd}))
@@ -198,6 +204,10 @@ def process(ctx, case, seen, probe=True):
     rec.count("judged")
     rec.count("hand-made-statements-listing-names-in-another-order", STATS.get("reordered", 0))
     count_contexts(rec, prog, macros)
+    rec.count("number-kinds-of-gate-arguments-compared", STATS.get("kind-compared", 0))
+    if any(s_[0] == "gate" and s_[1] in macros and any(isinstance(a_, float) and abs(a_) < 1e300 and a_ == int(a_) for a_ in s_[2:])
+           for s_ in sx.walk(prog)):
+        rec.count("programs-calling-a-macro-with-an-integral-float")
     nested = any(g[0] == "gate" and g[1] in macros for s in prog[1:] if s[0] == "macro" for g in sx.walk(s[-1]))
     if nested:
         rec.count("nested-macro-programs")
